@@ -119,17 +119,21 @@ Proof. induction gs as [|g t IH]; intros Hok j s E.
       destruct g as [|x [|y u]]; [congruence| |].
       * injection E as <- <-. rewrite fam_cons. unfold gq in Eg. cbn [gkey] in Eg. rewrite Eg, Z.eqb_refl. reflexivity.
       * cbn [fst snd] in E. destruct (check_overlap x y md).
-        -- destruct (join_rows x y) as [jr|] eqn:Ej; cbn [bind] in E |- *; [|discriminate]. injection E as <- <-.
-           rewrite fam_cons, (join_rows_qid _ _ _ Ej). unfold gq in Eg. cbn [gkey] in Eg. rewrite Eg, Z.eqb_refl. reflexivity.
+        -- destruct (join_rows x y) as [jr|] eqn:Ej; cbn [bind] in E |- *; [|discriminate].
+           destruct (joined_ok jr); injection E as <- <-.
+           ++ rewrite fam_cons, (join_rows_qid _ _ _ Ej). unfold gq in Eg. cbn [gkey] in Eg. rewrite Eg, Z.eqb_refl. reflexivity.
+           ++ change (x :: y :: u ++ st) with ((x :: y :: u) ++ st). rewrite fam_app. rewrite (fam_self qid c (x :: y :: u)) by (rewrite <- Eg; exact Hall). reflexivity.
         -- injection E as <- <-. change (x :: y :: u ++ st) with ((x :: y :: u) ++ st). rewrite fam_app. rewrite (fam_self qid c (x :: y :: u)) by (rewrite <- Eg; exact Hall). reflexivity.
     + apply Z.eqb_neq in Eg. rewrite IH.
       destruct g as [|x [|y u]]; [congruence| |].
       * injection E as <- <-. rewrite fam_cons. unfold gq in Eg. cbn [gkey] in Eg.
         destruct (qid x =? c) eqn:X; [apply Z.eqb_eq in X; congruence | reflexivity].
       * cbn [fst snd] in E. destruct (check_overlap x y md).
-        -- destruct (join_rows x y) as [jr|] eqn:Ej; cbn [bind] in E; [|discriminate]. injection E as <- <-.
-           rewrite fam_cons, (join_rows_qid _ _ _ Ej). unfold gq in Eg. cbn [gkey] in Eg.
-           destruct (qid x =? c) eqn:X; [apply Z.eqb_eq in X; congruence | reflexivity].
+        -- destruct (join_rows x y) as [jr|] eqn:Ej; cbn [bind] in E; [|discriminate].
+           destruct (joined_ok jr); injection E as <- <-.
+           ++ rewrite fam_cons, (join_rows_qid _ _ _ Ej). unfold gq in Eg. cbn [gkey] in Eg.
+              destruct (qid x =? c) eqn:X; [apply Z.eqb_eq in X; congruence | reflexivity].
+           ++ change (x :: y :: u ++ st) with ((x :: y :: u) ++ st). rewrite fam_app, (fam_other qid c (gq (x :: y :: u)) (x :: y :: u)); [reflexivity | exact Hall | congruence].
         -- injection E as <- <-. change (x :: y :: u ++ st) with ((x :: y :: u) ++ st). rewrite fam_app, (fam_other qid c (gq (x :: y :: u)) (x :: y :: u)); [reflexivity | exact Hall | congruence].
 Qed.
 (* an error comes from one group, hence from one query id *)
@@ -140,7 +144,7 @@ Proof. induction gs as [|g t IH]; intros E; [discriminate|]. cbn [resolve_groups
     cbn [resolve_groups]. destruct Hin as [->|Hin].
     + destruct (resolve_groups md u) as [r'|]; cbn [bind]; [|reflexivity].
       destruct g as [|x [|y v]]; try discriminate. destruct (check_overlap x y md); [|discriminate].
-      destruct (join_rows x y); [discriminate | reflexivity].
+      destruct (join_rows x y) as [jr|]; [cbn [bind] in E; destruct (joined_ok jr); discriminate | reflexivity].
     + rewrite (IHu Hin). reflexivity.
   - destruct (IH eq_refl) as (g0 & Hin & H). exists g0. split; [right; exact Hin | exact H]. Qed.
 
@@ -211,9 +215,14 @@ Proof. induction gs as [|g t IH]; intros j s E x Hx.
       * exists [a], a. split; [left; reflexivity | split; [left; reflexivity | rewrite E; reflexivity]].
       * apply Tail, in_or_app. right. exact Hx.
     + cbn [fst snd] in E. destruct (check_overlap a b md).
-      * destruct (join_rows a b) as [jr|] eqn:Ej; cbn [bind] in E; [|discriminate]. injection E as <- <-.
-        destruct Hx as [<-|Hx]; [|apply Tail, Hx]. exists (a :: b :: u), a. split; [left; reflexivity|]. split; [left; reflexivity|].
-        symmetry. apply (join_rows_qid _ _ _ Ej).
+      * destruct (join_rows a b) as [jr|] eqn:Ej; cbn [bind] in E; [|discriminate].
+        destruct (joined_ok jr); injection E as <- <-.
+        -- destruct Hx as [<-|Hx]; [|apply Tail, Hx]. exists (a :: b :: u), a. split; [left; reflexivity|]. split; [left; reflexivity|].
+           symmetry. apply (join_rows_qid _ _ _ Ej).
+        -- apply in_app_or in Hx. destruct Hx as [Hx|Hx]; [apply Tail, in_or_app; left; exact Hx|].
+           change (a :: b :: u ++ st) with ((a :: b :: u) ++ st) in Hx.
+           apply in_app_or in Hx. destruct Hx as [Hx|Hx]; [|apply Tail, in_or_app; right; exact Hx].
+           exists (a :: b :: u), x. split; [left; reflexivity | split; [exact Hx | reflexivity]].
       * injection E as <- <-. apply in_app_or in Hx. destruct Hx as [Hx|Hx]; [apply Tail, in_or_app; left; exact Hx|].
         change (a :: b :: u ++ st) with ((a :: b :: u) ++ st) in Hx.
         apply in_app_or in Hx. destruct Hx as [Hx|Hx]; [|apply Tail, in_or_app; right; exact Hx].
